@@ -341,8 +341,9 @@ func familyLimiter(t *testing.T) {
 	rng := T.rng
 	synctest.Test(t, func(t *testing.T) {
 		defer guard()
-		limits := []int{10, 37, 100, 1000}
-		nScen := T.size(16, 80)
+		// limits that divide one second evenly and limits that do not (in milliseconds: 37, 150, 600; 1500 is above one per millisecond)
+		limits := []int{10, 37, 100, 1000, 150, 1500, 600}
+		nScen := T.size(21, 84)
 		for sc := 0; sc < nScen; sc++ {
 			R := limits[sc%len(limits)]
 			if sc%9 == 8 {
@@ -494,6 +495,27 @@ func familyLimiter(t *testing.T) {
 		// traffic on an already authenticated session is not subject to the limit
 		for _, R := range []int{10, 25} {
 			sessionTraffic(R)
+		}
+		// verifications beyond the limit are refused WITHOUT being performed: with the provider's key set unavailable (so that it
+		// is never cached), every verification that is actually carried out costs a request to the JWKS endpoint
+		for _, R := range []int{10, 40} {
+			r := newVerifyRun(R)
+			r.p.mu.Lock()
+			r.p.jwksFail = true
+			h0 := r.p.jwksHits
+			r.p.mu.Unlock()
+			n := 4 * R
+			for i := 0; i < n; i++ {
+				r.inst.VerifyToken(r.mint("valid", time.Hour, "").raw) // (not a model step: the key set is down)
+			}
+			r.p.mu.Lock()
+			hits := r.p.jwksHits - h0
+			r.p.jwksFail = false
+			r.p.mu.Unlock()
+			T.statN("limiter.work-counted.attempts", n)
+			if hits > R {
+				T.oracle("C19", "verifications beyond the limit were performed before being refused (requests to the JWKS endpoint counted)", M{"R": R, "attempts_at_one_instant": n, "verifications_performed": hits}, M{"family": "limiter", "scenario": "work-counted", "R": R})
+			}
 		}
 		T.finish()
 	})
